@@ -213,6 +213,11 @@ func reopenClockScenario(c *sup.Ctx, r *rng.R) {
 		run.Writer.EndMeta = (c.Local/8)%2 == 0
 		c.Count("reopen_pairs_after_withmeta_writes", 1)
 	}
+	if (c.Local/2)%3 == 1 {
+		// the last write before the close / kill is a replicated version whose CAS is ahead of the writer's clock
+		run.Writer.EndFuture, run.Reader.Rewrite = true, []string{"imported"}
+		c.Count("reopen_pairs_after_an_import_from_the_future", 1)
+	}
 	switch c.Local % 4 {
 	case 0:
 		run.Writer.Clean = true
